@@ -43,26 +43,58 @@ import (
 var p = &mysql.Field{Name: []byte("?")}
 var c = &mysql.Field{}
 
+// CalcParams finds the parameter markers of a prepare statement. A '?' is a parameter
+// only outside of string literals ('...' and "...", with backslash escapes and doubled
+// quotes), quoted identifiers (`...`) and comments (-- , # and /* */).
 func CalcParams(sql string) (count int, offsets []int, sqlItems []string, err error) {
-	quoteChar := ""
 	offsets = make([]int, 0)
 	sqlItems = make([]string, 0)
 	subBeginIndex := 0
+	n := len(sql)
+	inSpecificCode := false // inside /*! MySQL-specific code */
 
-	for i, elem := range []byte(sql) {
-		if elem == '\\' {
-			continue
-		} else if elem == '"' || elem == '\'' {
-			if quoteChar == "" {
-				quoteChar = string(elem)
-			} else if quoteChar == string(elem) {
-				quoteChar = ""
+	for i := 0; i < n; {
+		switch ch := sql[i]; {
+		case ch == '\'' || ch == '"' || ch == '`':
+			next, closed := skipQuoted(sql, i)
+			if !closed {
+				// quote char not match
+				err = fmt.Errorf("fatal situation")
 			}
-		} else if quoteChar == "" && elem == '?' {
+			i = next
+		case ch == '#':
+			i = skipLine(sql, i)
+		case ch == '-' && i+1 < n && sql[i+1] == '-' && (i+2 == n || sql[i+2] <= ' '):
+			// "--" begins a comment only if followed by a whitespace or control character
+			i = skipLine(sql, i)
+		case ch == '/' && i+1 < n && sql[i+1] == '*':
+			if i+2 < n && sql[i+2] == '!' {
+				// /*! MySQL-specific code */ is executed, keep scanning inside it
+				inSpecificCode = true
+				i += 3
+				continue
+			}
+			// skip to the end of the comment
+			end := i + 2
+			for end+1 < n && !(sql[end] == '*' && sql[end+1] == '/') {
+				end++
+			}
+			if end+1 < n {
+				i = end + 2
+			} else {
+				i = n
+			}
+		case ch == '*' && inSpecificCode && i+1 < n && sql[i+1] == '/':
+			inSpecificCode = false
+			i += 2
+		case ch == '?':
 			count++
 			offsets = append(offsets, i)
 			sqlItems = append(sqlItems, sql[subBeginIndex:i], "?")
 			subBeginIndex = i + 1
+			i++
+		default:
+			i++
 		}
 	}
 
@@ -71,13 +103,38 @@ func CalcParams(sql string) (count int, offsets []int, sqlItems []string, err er
 		sqlItems = append(sqlItems, sql[subBeginIndex:])
 	}
 
-	// quote char not match
-	if quoteChar != "" {
-		err = fmt.Errorf("fatal situation")
-		return
-	}
-
 	return
+}
+
+// skipQuoted returns the index behind the string literal or quoted identifier that
+// begins at sql[start], and whether its closing quote was found.
+func skipQuoted(sql string, start int) (next int, closed bool) {
+	quote := sql[start]
+	for i := start + 1; i < len(sql); i++ {
+		switch {
+		case sql[i] == '\\' && quote != '`':
+			// backslash escapes the next char in string literals, not in identifiers
+			i++
+		case sql[i] == quote:
+			if i+1 < len(sql) && sql[i+1] == quote {
+				// doubled quote
+				i++
+				continue
+			}
+			return i + 1, true
+		}
+	}
+	return len(sql), false
+}
+
+// skipLine returns the index of the line break that ends a one-line comment.
+func skipLine(sql string, start int) int {
+	for i := start; i < len(sql); i++ {
+		if sql[i] == '\n' {
+			return i
+		}
+	}
+	return len(sql)
 }
 
 func escapeSQL(sql string) string {
